@@ -63,12 +63,15 @@ enum ReadApi {
     PollData,
     FuturesAsyncRead,
     TokioAsyncRead,
+    /// bidirectional streams: `quic::BidiStream::split`, then `poll_data` on the receiving half
+    /// (what examples/webtransport_server.rs does); same as PollData for unidirectional streams
+    SplitPollData,
 }
 
 fn gens(tier: Tier) -> Vec<Gen> {
     vec![
         // X x kind x read api, each with all cut positions for a short payload
-        Gen::exhaustive("all_cuts_short_payload", (XS.len() * 2 * 3) as u64),
+        Gen::exhaustive("all_cuts_short_payload", (XS.len() * 2 * 4) as u64),
         Gen::exhaustive("session_id_grid", (XS.len() * 4) as u64),
         Gen::new("random_sessions", tier.pick(2, 2_500, 250_000)),
         Gen::new("extension_disabled", tier.pick(1, 300, 20_000)),
@@ -283,16 +286,25 @@ fn check_case(c: &Case, seed: u64, rep: &mut Report) {
                     match p.call("s:wt", "accept_bi", session.accept_bi(), |r| match r { Ok(Some(_)) => Out::Ok, Ok(None) => Out::None, Err(e) => Out::Err(AErr::from_h3(e)) }).await {
                         Ok(Some(AcceptedBi::BidiStream(got_sid, mut s))) => {
                             sl.lock().unwrap().incoming_session = Some(StreamId::from(got_sid).into_inner());
-                            let r = match cc.api {
-                                ReadApi::PollData => read_all_poll_data(&mut s).await,
-                                ReadApi::FuturesAsyncRead => read_all_futures(&mut s, buf_size).await,
-                                ReadApi::TokioAsyncRead => read_all_tokio(&mut s, buf_size).await,
+                            let r = if cc.api == ReadApi::SplitPollData {
+                                let (snd, mut rcv) = h3::quic::BidiStream::<Bytes>::split(s);
+                                let r = read_all_poll_data(&mut rcv).await;
+                                p.park(snd);
+                                p.park(rcv);
+                                r
+                            } else {
+                                let r = match cc.api {
+                                    ReadApi::PollData | ReadApi::SplitPollData => read_all_poll_data(&mut s).await,
+                                    ReadApi::FuturesAsyncRead => read_all_futures(&mut s, buf_size).await,
+                                    ReadApi::TokioAsyncRead => read_all_tokio(&mut s, buf_size).await,
+                                };
+                                p.park(s);
+                                r
                             };
                             match r {
                                 Ok(d) => sl.lock().unwrap().incoming_payload = Some(d),
                                 Err(e) => sl.lock().unwrap().incoming_error = Some(e),
                             }
-                            p.park(s);
                             break;
                         }
                         // an ordinary request that arrived after the CONNECT: serve it and go on
@@ -315,7 +327,7 @@ fn check_case(c: &Case, seed: u64, rep: &mut Report) {
                     Ok(Some((got_sid, mut s))) => {
                         sl.lock().unwrap().incoming_session = Some(StreamId::from(got_sid).into_inner());
                         let r = match cc.api {
-                            ReadApi::PollData => read_all_poll_data(&mut s).await,
+                            ReadApi::PollData | ReadApi::SplitPollData => read_all_poll_data(&mut s).await,
                             ReadApi::FuturesAsyncRead => read_all_futures(&mut s, buf_size).await,
                             ReadApi::TokioAsyncRead => read_all_tokio(&mut s, buf_size).await,
                         };
@@ -563,7 +575,7 @@ fn run_case(gen: &str, index: u64, seed: u64, tier: Tier, rep: &mut Report) {
         "all_cuts_short_payload" => {
             let x = XS[(index as usize) % XS.len()];
             let kind = if (index as usize / XS.len()) % 2 == 0 { Kind::InBidi } else { Kind::InUni };
-            let api = [ReadApi::PollData, ReadApi::FuturesAsyncRead, ReadApi::TokioAsyncRead][(index as usize / (XS.len() * 2)) % 3];
+            let api = [ReadApi::PollData, ReadApi::FuturesAsyncRead, ReadApi::TokioAsyncRead, ReadApi::SplitPollData][(index as usize / (XS.len() * 2)) % 4];
             let id_form = rv::size(x);
             let header_len = 2 + id_form;
             let payload: Vec<u8> = (0..3u8).map(|i| 0xa0 + i).collect();
@@ -601,7 +613,7 @@ fn run_case(gen: &str, index: u64, seed: u64, tier: Tier, rep: &mut Report) {
                 _ => rng.usize(3000),
             };
             let forms: Vec<usize> = [1usize, 2, 4, 8].into_iter().filter(|f| rv::encode_form(x, *f).is_some()).collect();
-            let c = Case { x, ordinary_before: rng.usize(4), kind, payload: rng.bytes(l), api: *rng.pick(&[ReadApi::PollData, ReadApi::FuturesAsyncRead, ReadApi::TokioAsyncRead]), chunks: None, id_form: *rng.pick(&forms), enabled: true };
+            let c = Case { x, ordinary_before: rng.usize(4), kind, payload: rng.bytes(l), api: *rng.pick(&[ReadApi::PollData, ReadApi::FuturesAsyncRead, ReadApi::TokioAsyncRead, ReadApi::SplitPollData]), chunks: None, id_form: *rng.pick(&forms), enabled: true };
             check_case(&c, rng.next(), rep);
         }
         "extension_disabled" => {
